@@ -265,7 +265,7 @@ func checkCompleted(prop string, h *HistItem, res *RunResult) *Violation {
 	case OutHang:
 		return viol(prop, "hang", "request made no progress for %v of virtual time (steps=%d)", IdleLimit, res.Steps)
 	case OutStepBudget:
-		return viol(prop, "livelock", "request did not finish within %d scheduler steps", MaxStepsPerRequest)
+		return viol(prop, "livelock", "request did not finish within %d scheduler steps", res.StepBudget)
 	}
 	return nil
 }
